@@ -60,6 +60,13 @@ def cases(draw):
       val = draw(st.one_of(st.integers(-50, 50), st.integers(-8, 8).map(lambda x: x / 4.0),
                            st.sampled_from([float('inf'), float('-inf'), 0.0, 1000.0])))
       steps.append(['recv', name, how, val])
+    elif k == 7 and used and draw(st.booleans()):
+      # a back-fill batch that straddles a flush tick: backlog oldest-last, flush, then more points for that oldest interval
+      nm = draw(st.sampled_from(used))
+      steps.append(['replay', nm, draw(st.integers(2, 9)), draw(st.integers(-20, 20)), 'asc'])
+      steps.append(['advance', draw(st.sampled_from(['freq', '1', '3freq']))])
+      for _ in range(draw(st.integers(1, 3))):
+        steps.append(['recv', nm, 'same', draw(st.integers(-20, 20))])
     elif k == 6 and used:
       # a live datapoint followed by a replayed backlog of older intervals (buffers allocated out of order)
       steps.append(['replay', draw(st.sampled_from(used)), draw(st.integers(2, 9)), draw(st.integers(-20, 20)),
@@ -329,4 +336,4 @@ def execute(ctx, case):
 
 
 def run(ctx):
-  run_given(ctx, cases(), execute, ctx.scale(1300, 5000), salt=1)
+  run_given(ctx, cases(), execute, ctx.scale(1000, 5000), salt=1)
